@@ -11,6 +11,18 @@ CHECKS = {
     "C01": ("property-based differential testing against a reference evaluator (rapid, typed expression generator)",
             "Generated expressions over the whole operator table, bindings incl. failing ones; Eval/EvalBool/one-shot Eval compared with an independent reference evaluator on value, error class (errors.Is on sentinels) and the exact sequence of fetches and custom-operator calls. Exploration: thousands of distinct non-trivial programs per run, no claim beyond them.",
             "Trusted: the reference evaluator and operator model in harness/model (written from README/property text). and/or operands are boolean-typed or always failing.", "§3 C01"),
+    "C02": ("property-based metamorphic + differential testing over all 16 optimization subsets (rapid)",
+            "Each generated expression x cost map is compiled under all 16 subsets, each subset also expressed a second way (sparse map / option function / ;;;; directives); outcomes compared pairwise, with the reference evaluator R/R_eager on the source tree, and with R on each configuration's own Dump. Exploration.",
+            "Trusted: reference evaluator, Dump reader. All variables bound; custom operators pure (no stateful operator under reordering).", "§3 C02"),
+    "C03": ("property-based testing with instrumented fetcher/operators: effect-trace equality against the reference evaluator run on the dumped program (rapid)",
+            "The ordered log of every VariableFetcher.Get and every registered-operator call (arguments, result/error) made by Eval is compared with the trace of left-to-right short-circuit evaluation of the tree read back from Dump, for all 16 subsets. Exploration.",
+            "Trusted: reference evaluator, Dump reader. The second-leaf fetch of a fast operator after a deciding first leaf is optional.", "§3 C03"),
+    "C04": ("property-based testing: TryEval vs Eval over enumerated completions of the unavailable variables (rapid)",
+            "Generated expression x subset x availability split; a definite TryEval answer is compared with the engine's Eval under every completion from small per-type domains (full product when <= 64); full availability: TryEval = Eval; larger availability set: same answer. Exploration.",
+            "Completions are a structured finite sample of an infinite value space. Fetcher reports availability truthfully.", "§3 C04"),
+    "C05": ("property-based differential testing of TryEval against an independent Kleene evaluator (rapid)",
+            "Generated non-failing expression (repaired, not filtered) x 16 subsets x availability split: whenever Kleene evaluation is definite TryEval must return exactly that value, otherwise DNE with nil error (TryEvalBool: ErrDNE). Exploration.",
+            "Trusted: Kleene evaluator K and operator model in harness/model.", "§3 C05"),
 }
 
 NOT_YET = {}
